@@ -599,6 +599,19 @@ pub fn sizes_for(c: usize) -> Vec<u32> {
 pub const RAW_CHUNKS: &[usize] = &[1, 2, 3, 4, 7, 4096, 65536];
 pub const GZ_CHUNKS: &[usize] = &[1, 2, 3, 5, 10, 18, 64, 4096, 65536];
 
+/// Chunk sizes: the fixed list (tiny sizes where every boundary effect shows within a few bytes,
+/// and the two common large ones), neighbours of powers of two and of round decimal numbers, and
+/// arbitrary sizes drawn log-uniformly up to 2^17.
+pub fn chunk_strategy(gzip: bool) -> BoxedStrategy<usize> {
+    let chunks: &'static [usize] = if gzip { GZ_CHUNKS } else { RAW_CHUNKS };
+    prop_oneof![
+        5 => proptest::sample::select(chunks),
+        2 => (proptest::sample::select(vec![8usize, 16, 64, 256, 1000, 1024, 1500, 2048, 4096, 8192, 10_000, 16_384, 32_768, 65_536, 100_000]), 0usize..3).prop_map(|(b, d)| b + d - 1),
+        3 => (0u32..17, any::<u32>()).prop_map(|(k, r)| ((1usize << k) + (r as usize % (1usize << k))).max(1)),
+    ]
+    .boxed()
+}
+
 pub fn op_strategy(chunk: usize, with_faults: bool, gzip: bool) -> BoxedStrategy<Op> {
     let size = if gzip {
         prop_oneof![4 => proptest::sample::select(vec![0u32, 1, 2, 7, 100, 1000, 5000]), 1 => 0u32..20_000].boxed()
@@ -639,8 +652,7 @@ pub fn payload_strategy() -> BoxedStrategy<Payload> {
 }
 
 pub fn case_strategy(gzip: bool, with_faults: bool, max_ops: usize) -> BoxedStrategy<SCase> {
-    let chunks: &'static [usize] = if gzip { GZ_CHUNKS } else { RAW_CHUNKS };
-    (proptest::sample::select(chunks), 1u32..=9, payload_strategy(), 0usize..=4)
+    (chunk_strategy(gzip), 1u32..=9, payload_strategy(), 0usize..=4)
         .prop_flat_map(move |(chunk, level, payload, extra_polls)| {
             (vec(op_strategy(chunk, with_faults, gzip), 0..max_ops), Just((chunk, level, payload, extra_polls)))
         })
@@ -657,8 +669,7 @@ pub fn case_strategy(gzip: bool, with_faults: bool, max_ops: usize) -> BoxedStra
 /// Histories made of a short pattern repeated many times (the shape of event-stream style
 /// producers: small write + flush, again and again), followed by a few more operations.
 pub fn repeated_pattern_strategy(gzip: bool) -> BoxedStrategy<SCase> {
-    let chunks: &'static [usize] = if gzip { GZ_CHUNKS } else { RAW_CHUNKS };
-    (proptest::sample::select(chunks), 1u32..=9, payload_strategy(), 0usize..=2)
+    (chunk_strategy(gzip), 1u32..=9, payload_strategy(), 0usize..=2)
         .prop_flat_map(move |(chunk, level, payload, extra_polls)| {
             (
                 vec(op_strategy(chunk, false, gzip), 1..=3),
@@ -823,7 +834,7 @@ pub fn run_c09(cx: &Cx) -> Acc {
         "large",
         400 * n,
         || {
-            (1u32..=9, proptest::sample::select(GZ_CHUNKS), payload_strategy(), vec((1u32..=262_144, any::<bool>()), 1..4)).prop_map(|(level, chunk, payload, ws)| SCase {
+            (1u32..=9, chunk_strategy(true), payload_strategy(), vec((1u32..=262_144, any::<bool>()), 1..4)).prop_map(|(level, chunk, payload, ws)| SCase {
                 gzip: Some(level),
                 chunk: chunk.max(64),
                 payload,
